@@ -137,6 +137,19 @@ def prepare(root, seed):
     ops.append({"op": "cache-payloads", "id": "cache-payloads-sameuris", "inputs": inputs, "eb": 32})
     ops.append({"op": "mpi-generate", "id": "mpi-generate-sameclass", "vendor": "acme.org", "cls": "nRF54H20_sample_root",
                 "addr": 0x1000, "size": 48, "dp": True, "iu": True, "sv": None})
+    # an envelope with several dependencies matched by the dependency pattern, each contributing payloads
+    def leaf(i):
+        man = mcbor.enc({1: 1, 2: i, 3: mcbor.enc({})})
+        return mcbor.enc(mcbor.Tag(107, mcbor.Pairs([(2, mcbor.enc([mcbor.enc([-16, hashlib.sha256(mcbor.enc(man)).digest()])])),
+                                                     (3, man), (f"#leaf_payload_{i}", bytes([i]) * (3 + i))])))
+    man = mcbor.enc({1: 1, 2: 9, 3: mcbor.enc({})})
+    names = ["#dep_zeta", "#dep_alpha", "#dep_mid", "#dep_10", "#dep_2"]
+    multi = mcbor.enc(mcbor.Tag(107, mcbor.Pairs([(2, mcbor.enc([mcbor.enc([-16, hashlib.sha256(mcbor.enc(man)).digest()])])),
+                                                  (3, man), ("#own", b"\x09\x09")] + [(n, leaf(i)) for i, n in enumerate(names)])))
+    _atomic(f"{root}/multi_dep.suit", multi)
+    ops.append({"op": "cache-envelope", "id": "cache-envelope-multidep", "src": f"{root}/multi_dep.suit", "eb": 8,
+                "omit": None, "dep": "#dep_.*"})
+    ops.append({"op": "parse", "id": "parse-yaml-multidep", "src": f"{root}/multi_dep.suit", "fmt": "yaml", "hier": True})
     for k in range(2):
         ops.append({"op": "cache-envelope", "id": f"cache-envelope-{k}", "src": f"{root}/e{k}.suit", "eb": [16, 4][k],
                     "omit": [None, ".*0"][k], "dep": [None, "#dep.*"][k]})
